@@ -13,7 +13,7 @@
 From Coq Require Import NArith List String Bool Arith.
 From V Require Import Base.UString Model.Registry Model.RegistryInit Gen.Regexes Spec.NamingSpec
                       Proofs.RegistryFacts Proofs.NamingFacts Proofs.C19Proofs.
-From V Require Model.SchemaTypes Spec.SchemaRefine Model.RegistryBuilder Proofs.C19Inherit Proofs.C19Bridge.
+From V Require Model.SchemaTypes Model.RegistryBuilder Proofs.C19Inherit Proofs.C19Bridge.
 Import ListNotations.
 
 (* ---------------- tie to the current source ---------------- *)
@@ -274,10 +274,10 @@ Print Assumptions invalid_prop_name_refused.
    Model/RegistryBuilder.v gives, in the vocabulary of the schema family (SchemaTypes: slot, cls,
    world), the table each Custom* decorator builds; it is compared with the live classes on every
    run.  The generic theorems of the schema family are stated for an arbitrary class table / world;
-   what they ask of a table is shown here for every table the builder produces (the part evaluated
-   on the generated specification tables is in Props/C19Inherit.v).                              *)
+   what they ask of a table is shown here for every table the builder produces (the parts stated
+   with Spec/SchemaRefine.v or evaluated on the generated tables are in Props/C19Inherit.v).     *)
 Module Inherit.
-Import SchemaTypes SchemaRefine RegistryBuilder C19Inherit C19Bridge.
+Import SchemaTypes RegistryBuilder C19Inherit C19Bridge.
 
 (* property names are distinct, whatever the user passes (OrderedDict) *)
 Theorem custom_table_names_distinct : forall bv k V n xt user, NoDup (names (custom_slots bv k V n xt user)).
@@ -308,27 +308,10 @@ Print Assumptions observable_table_shape.
 Theorem standard_property_intact : forall bv k V n user s,
   (k = CObject \/ k = CObservable) ->
   In s (standard_slots bv k V n None) -> (forall t, In t user -> sname t <> sname s) ->
-  find_slot (custom_cls bv k V n None user (u "C")) (sname s) = Some s.
+  slot_named (custom_cls bv k V n None user (u "C")) (sname s) = Some s.
 Proof. exact standard_property_intact_lemma. Qed.
 Print Assumptions standard_property_intact.
 
-(* the table passes the refinement check of Spec/SchemaRefine.v against itself: header, no opaque
-   constraint, every value rule contained, every required property always present *)
-Theorem custom_refines_itself : forall bv k V n xt user cn,
-  forallb slot_kind_ok user = true ->
-  class_refine_failures (custom_cls bv k V n xt user cn) (custom_cls bv k V n xt user cn) = [].
-Proof. exact custom_refines_itself_lemma. Qed.
-Print Assumptions custom_refines_itself.
-
-(* the side condition of the generic C02 theorem survives the addition of a fresh class and its
-   registry row on both sides *)
-Theorem world_refines_add : forall w sp k V n c c',
-  world_refines w sp = true ->
-  find_class (wclasses sp) (cid c) = None -> cid c' = cid c ->
-  class_refine_failures c c' = [] ->
-  world_refines (world_add w k V n c) (world_add sp k V n c') = true.
-Proof. exact world_refines_add_lemma. Qed.
-Print Assumptions world_refines_add.
 (* registration model and schema world move together: a successful registration, mirrored by
    world_add of the builder's class, makes the name resolve -- in the registration model to the
    class id, in the world to that id and from there to the builder's table -- and keeps the two
